@@ -3,19 +3,41 @@
 #[allow(missing_docs, dead_code, unreachable_pub, missing_debug_implementations, clippy::all, clippy::pedantic)]
 pub mod verif_env {
     /// E1: one thread of control, so a thread-local is a plain static.
-    pub struct Tls<T>(T);
+    /// The trailing tag keeps the static's initial bytes different from the constant `T` it is built from: Kani 0.68
+    /// resolves a constant allocation to an already generated static with identical initial bytes, so a thread-local
+    /// `VecDeque::new()` aliased every other `VecDeque::new()` constant of the crate and a push onto the thread-local
+    /// corrupted them (propositional reduction ran out of memory on a 9 k-step program).
+    pub struct Tls<T>(T, u64);
     unsafe impl<T> Sync for Tls<T> {}
     #[derive(Debug)]
     pub struct AccessError;
     impl<T> Tls<T> {
         pub const fn new(v: T) -> Self {
-            Tls(v)
+            Tls(v, 0x7e57_7e57_a5a5_5a5a)
         }
         pub fn with<R>(&'static self, f: impl FnOnce(&T) -> R) -> R {
             f(&self.0)
         }
         pub fn try_with<R>(&'static self, f: impl FnOnce(&T) -> R) -> Result<R, AccessError> {
             Ok(f(&self.0))
+        }
+    }
+
+    /// E9: `crossbeam_utils::atomic::AtomicCell<T>` is used by the repository only as a holder whose raw pointer is taken
+    /// (`as_ptr`): thread-local stacks and the poller's `Poll`. The real type stores `UnsafeCell<MaybeUninit<T>>`; writing a
+    /// symbolic value through that union-like layout makes CBMC's propositional reduction run out of memory (a single
+    /// `push_front(any())` on the TIMESTAMP stack: > 16 GB for a 9 k-step program; the same push through a plain UnsafeCell:
+    /// 14 k variables). Same API subset, plain UnsafeCell.
+    #[derive(Debug, Default)]
+    pub struct VCell<T>(std::cell::UnsafeCell<T>);
+    unsafe impl<T> Sync for VCell<T> {}
+    unsafe impl<T> Send for VCell<T> {}
+    impl<T> VCell<T> {
+        pub const fn new(v: T) -> Self {
+            VCell(std::cell::UnsafeCell::new(v))
+        }
+        pub const fn as_ptr(&self) -> *mut T {
+            self.0.get()
         }
     }
 
@@ -160,6 +182,136 @@ pub mod verif_env {
         vatomic_int!(AtomicU32, u32);
         vatomic_int!(AtomicU64, u64);
         vatomic!(AtomicBool, bool);
+    }
+}
+
+/// E5 (blocking primitives, only for the C02 harness group): `Mutex`/`Condvar` of a single thread of control that is
+/// pre-empted at scheduling points. A `Condvar::wait_timeout_while` whose predicate says "keep waiting" is a BLOCK POINT: the
+/// lock is released, every other (modelled) thread that is still pending runs to completion (the harness's block hook), the
+/// predicate is evaluated again, and if it still says "keep waiting" the FULL timeout elapses (recorded - that is what a lost
+/// wake-up looks like) and the call reports timed-out. Spurious wake-ups are not modelled.
+#[allow(missing_docs, dead_code, unreachable_pub, missing_debug_implementations, clippy::all, clippy::pedantic)]
+pub mod verif_sync {
+    use std::cell::{Cell, UnsafeCell};
+    use std::ops::{Deref, DerefMut};
+    use std::time::Duration;
+
+    #[derive(Debug)]
+    pub struct Poisoned;
+    impl std::fmt::Display for Poisoned {
+        fn fmt(&self, f: &mut std::fmt::Formatter<'_>) -> std::fmt::Result {
+            f.write_str("poisoned")
+        }
+    }
+
+    pub struct Mutex<T> {
+        v: UnsafeCell<T>,
+        locked: Cell<bool>,
+        tag: u8,
+    }
+    unsafe impl<T> Sync for Mutex<T> {}
+    unsafe impl<T> Send for Mutex<T> {}
+    impl<T: Default> Default for Mutex<T> {
+        fn default() -> Self {
+            Self::new(T::default())
+        }
+    }
+    impl<T> std::fmt::Debug for Mutex<T> {
+        fn fmt(&self, f: &mut std::fmt::Formatter<'_>) -> std::fmt::Result {
+            f.write_str("Mutex")
+        }
+    }
+    impl<T> Mutex<T> {
+        pub const fn new(v: T) -> Self {
+            Mutex { v: UnsafeCell::new(v), locked: Cell::new(false), tag: 0xA7 }
+        }
+        pub fn lock(&self) -> Result<MutexGuard<'_, T>, Poisoned> {
+            verif_rt::yield_point(7);
+            // a pre-empting thread runs to completion and releases what it locked, so the lock is free here
+            assert!(!self.locked.get(), "verif_sync: lock taken while held (self-deadlock)");
+            self.locked.set(true);
+            Ok(MutexGuard { m: self })
+        }
+    }
+    pub struct MutexGuard<'a, T> {
+        m: &'a Mutex<T>,
+    }
+    impl<T> Drop for MutexGuard<'_, T> {
+        fn drop(&mut self) {
+            self.m.locked.set(false);
+        }
+    }
+    impl<T> Deref for MutexGuard<'_, T> {
+        type Target = T;
+        fn deref(&self) -> &T {
+            unsafe { &*self.m.v.get() }
+        }
+    }
+    impl<T> DerefMut for MutexGuard<'_, T> {
+        fn deref_mut(&mut self) -> &mut T {
+            unsafe { &mut *self.m.v.get() }
+        }
+    }
+
+    #[derive(Debug, Copy, Clone)]
+    pub struct WaitTimeoutResult(bool);
+    impl WaitTimeoutResult {
+        pub fn timed_out(&self) -> bool {
+            self.0
+        }
+    }
+
+    /// Installed by the harness: runs every other thread that is still pending to completion.
+    pub static mut BLOCK_HOOK: Option<fn()> = None;
+    /// Number of waits that elapsed their FULL timeout, and the total time they waited (ns, saturating).
+    pub static mut FULL_TIMEOUTS: u32 = 0x5c1;
+    pub static mut WAITED_NS: u64 = 0x5c2;
+    pub static mut NOTIFIES: u32 = 0x5c3;
+
+    #[derive(Debug)]
+    pub struct Condvar {
+        tag: u8,
+    }
+    impl Default for Condvar {
+        fn default() -> Self {
+            Self::new()
+        }
+    }
+    impl Condvar {
+        pub const fn new() -> Self {
+            Condvar { tag: 0xA9 }
+        }
+        pub fn notify_one(&self) {
+            verif_rt::yield_point(8);
+            unsafe { NOTIFIES += 1 };
+        }
+        pub fn notify_all(&self) {
+            self.notify_one();
+        }
+        pub fn wait_timeout_while<'a, T, F: FnMut(&mut T) -> bool>(
+            &self,
+            mut guard: MutexGuard<'a, T>,
+            dur: Duration,
+            mut keep_waiting: F,
+        ) -> Result<(MutexGuard<'a, T>, WaitTimeoutResult), Poisoned> {
+            if !keep_waiting(&mut *guard) {
+                return Ok((guard, WaitTimeoutResult(false)));
+            }
+            // block: release the lock, let the others run
+            guard.m.locked.set(false);
+            if let Some(h) = unsafe { BLOCK_HOOK } {
+                h();
+            }
+            guard.m.locked.set(true);
+            if !keep_waiting(&mut *guard) {
+                return Ok((guard, WaitTimeoutResult(false)));
+            }
+            unsafe {
+                FULL_TIMEOUTS += 1;
+                WAITED_NS = WAITED_NS.saturating_add(dur.as_secs().saturating_mul(1_000_000_000).saturating_add(u64::from(dur.subsec_nanos())));
+            }
+            Ok((guard, WaitTimeoutResult(true)))
+        }
     }
 }
 
